@@ -10,6 +10,7 @@ import (
 	"fmt"
 	"io"
 	"net/url"
+	"slices"
 	"sort"
 	"strings"
 	"sync"
@@ -61,6 +62,9 @@ type simBucket struct {
 	// noMD5: the store does not provide content hashes (driver.Attributes.MD5 is nil "if not available": multipart or
 	// encrypted uploads, composite objects)
 	noMD5 bool
+	// stall (optional): how long the download of an object takes (slow-store fault); the content delivered is the
+	// object as it was when the download began, as object stores do
+	stall func(op, key string) time.Duration
 }
 
 func (b *simBucket) md5Of(data []byte) []byte {
@@ -140,8 +144,21 @@ func (b *simBucket) Attributes(_ context.Context, key string) (*driver.Attribute
 
 type simReader struct {
 	*bytes.Reader
-	attrs driver.ReaderAttributes
+	attrs   driver.ReaderAttributes
+	stall   time.Duration
+	stalled bool
 }
+
+func (r *simReader) wait() {
+	if !r.stalled {
+		r.stalled = true
+		if r.stall > 0 {
+			time.Sleep(r.stall) // fake clock of the bubble; no lock is held here
+		}
+	}
+}
+func (r *simReader) Read(p []byte) (int, error)         { r.wait(); return r.Reader.Read(p) }
+func (r *simReader) WriteTo(w io.Writer) (int64, error) { r.wait(); return r.Reader.WriteTo(w) }
 
 func (r *simReader) Close() error                        { return nil }
 func (r *simReader) Attributes() *driver.ReaderAttributes { return &r.attrs }
@@ -169,7 +186,11 @@ func (b *simBucket) NewRangeReader(_ context.Context, key string, offset, length
 	if length >= 0 && int(length) < len(data) {
 		data = data[:length]
 	}
-	return &simReader{Reader: bytes.NewReader(data), attrs: driver.ReaderAttributes{ContentType: o.ctype, ModTime: o.modTime, Size: int64(len(o.data))}}, nil
+	var stall time.Duration
+	if b.stall != nil {
+		stall = b.stall("read", key)
+	}
+	return &simReader{Reader: bytes.NewReader(append([]byte(nil), data...)), stall: stall, attrs: driver.ReaderAttributes{ContentType: o.ctype, ModTime: o.modTime, Size: int64(len(o.data))}}, nil
 }
 
 type simOpener struct{}
@@ -612,6 +633,177 @@ func blobTwoAccountsSim(r *simcore.Run) {
 	})
 }
 
+// blobSlowStoreSim: downloads that take longer than the watch interval. However the provider schedules its polls, what it
+// applies for an object must never go back behind what it applied before (an older version re-applied over a newer one,
+// a deleted rule set resurrected from a download begun before the deletion), and once downloads are fast again the
+// active set converges to the bucket content.
+func blobSlowStoreSim(r *simcore.Run) {
+	registerOnce.Do(func() { blob.DefaultURLMux().RegisterBucket("simblob", simOpener{}) })
+	bubble.Run(r, func() {
+		s := r.Src
+		const interval = 2 * time.Minute
+		bkt := &simBucket{objects: map[string]*simObject{}, fault: func(string, string) error { return nil }}
+		bkt.resetPoll()
+		curBucket = bkt
+		stalling := true
+		inFlight, overlaps := 0, 0
+		bkt.stall = func(_, key string) time.Duration {
+			if !stalling {
+				return 0
+			}
+			d := simcore.Pick(s, []time.Duration{0, 0, interval / 2, interval * 3 / 2, interval * 5 / 2}, "download-takes")
+			if d > interval {
+				r.Count("fault:download-longer-than-the-watch-interval", 1)
+			}
+			return d
+		}
+		_ = inFlight
+		rec := provsim.NewRecorder(r, "cloud_blob")
+		rec.Silent = true
+		keys := []string{"svc/a.yaml", "svc/b.yaml"}
+		storeVer := map[string]int{}        // every put and every deletion of an object is one version of it
+		verOf := map[string]map[string]int{} // object -> content id -> version
+		goneVers := map[string][]int{}      // object -> versions that are deletions
+		for _, k := range keys {
+			verOf[k] = map[string]int{}
+		}
+		put := func(k string) {
+			storeVer[k]++
+			doc := provsim.RuleSetYAML(strings.TrimSuffix(strings.TrimPrefix(k, "svc/"), ".yaml"), storeVer[k], 1)
+			bkt.mu.Lock()
+			bkt.objects[k] = &simObject{data: []byte(doc), ctype: "application/yaml", modTime: time.Now()}
+			bkt.mu.Unlock()
+			verOf[k][provsim.ContentIDOfYAML(doc)] = storeVer[k]
+		}
+		del := func(k string) bool {
+			bkt.mu.Lock()
+			defer bkt.mu.Unlock()
+			if _, ok := bkt.objects[k]; !ok {
+				return false
+			}
+			storeVer[k]++
+			delete(bkt.objects, k)
+			goneVers[k] = append(goneVers[k], storeVer[k])
+			return true
+		}
+		for _, k := range keys[:1+s.Draw(len(keys), "initial-objects")] {
+			put(k)
+		}
+		conf := &config.Configuration{Providers: config.RuleProviders{CloudBlob: map[string]any{"watch_interval": interval.String(), "buckets": []any{map[string]any{"url": "simblob://bucket", "prefix": "svc"}}}}}
+		prov, err := newProvider(conf, rec, zerolog.Nop())
+		if err != nil {
+			r.Fail("infra", "provider", "%v", err)
+			return
+		}
+		epoch := time.Now()
+		if err := prov.Start(context.Background()); err != nil {
+			r.Fail("infra", "provider-start", "%v", err)
+			return
+		}
+		defer prov.Stop(context.Background())
+		keyOf := func(src string) string {
+			src = strings.TrimPrefix(src, "/")
+			for _, k := range keys {
+				if strings.HasPrefix(src, k+"@") {
+					return k
+				}
+			}
+			return ""
+		}
+		applied := map[string]int{} // object -> latest version of it the provider has applied
+		logged := 0
+		// order: every processor call applies a version of its object that is not older than what was applied before
+		order := func(when string) bool {
+			synctest.Wait()
+			delta := append([]string(nil), rec.Log[logged:]...)
+			logged += len(delta)
+			for _, l := range delta {
+				r.Logf("processor: %s", l)
+				f := strings.Fields(l)
+				k := keyOf(f[1])
+				if k == "" {
+					r.Fail("processor-call-for-unknown-source", "cloud_blob/slow-store", "%s: %q names no object of the bucket", when, l)
+					return false
+				}
+				switch f[0] {
+				case "C", "U":
+					v, ok := verOf[k][f[2]]
+					if !ok {
+						r.Fail("content-never-stored", "cloud_blob/slow-store", "%s: %q applies content the bucket never held for %s", when, l, k)
+						return false
+					}
+					if v < applied[k] {
+						r.Fail("older-version-applied-over-newer", "cloud_blob/slow-store/"+f[0], "%s at +%s: %q applies version %d of %s although version %d of it (a %s) had been applied before: a download begun earlier overwrote a later state (bucket now at version %d)", when, time.Since(epoch).Round(time.Second), l, v, k, applied[k], map[bool]string{true: "deletion", false: "newer content"}[slices.Contains(goneVers[k], applied[k])], storeVer[k])
+						return false
+					}
+					applied[k] = v
+				case "D":
+					// the deletion it reflects: the latest one so far that is newer than what was applied
+					v := 0
+					for _, g := range goneVers[k] {
+						if g > applied[k] {
+							v = g
+						}
+					}
+					if v == 0 {
+						r.Fail("deleted-although-never-absent-since", "cloud_blob/slow-store", "%s at +%s: %q, but %s was not absent from the bucket at any time after version %d was applied", when, time.Since(epoch).Round(time.Second), l, k, applied[k])
+						return false
+					}
+					applied[k] = v
+				}
+			}
+			return true
+		}
+		for step := 0; step < 3+s.Draw(6, "steps"); step++ {
+			var d []string
+			for _, k := range keys {
+				switch s.Draw(4, "change") {
+				case 1, 2:
+					put(k)
+					d = append(d, fmt.Sprintf("%s=v%d", k, storeVer[k]))
+				case 3:
+					if del(k) {
+						d = append(d, fmt.Sprintf("%s=gone(v%d)", k, storeVer[k]))
+					}
+				}
+			}
+			r.Logf("step %d at +%s: %v", step, time.Since(epoch).Round(time.Second), d)
+			time.Sleep(simcore.Pick(s, []time.Duration{interval / 4, interval / 2, interval, interval + interval/4}, "until-next-change"))
+			if !order(fmt.Sprintf("after step %d", step)) {
+				return
+			}
+		}
+		// downloads are fast again: what is in flight ends within the longest download, two further polls follow
+		stalling = false
+		time.Sleep(interval*5/2 + 2*interval + time.Second)
+		if !order("after the store became fast again") {
+			return
+		}
+		for _, k := range keys {
+			want := ""
+			bkt.mu.Lock()
+			if o, ok := bkt.objects[k]; ok {
+				_, want = provsim.Classify(o.data)
+			}
+			bkt.mu.Unlock()
+			got := ""
+			for _, src := range rec.ActiveSources() {
+				if keyOf(src) == k {
+					got = rec.Active(src)
+				}
+			}
+			if got != want {
+				r.Fail("no-convergence-after-slow-downloads", "cloud_blob/slow-store", "%s after the last slow download began: %s has %q active, the bucket holds %q", (interval*5/2 + 2*interval).String(), k, got, want)
+				return
+			}
+		}
+		_ = overlaps
+		r.Count("slow-store-runs", 1)
+		r.Count("processor-calls", rec.Calls)
+		r.Distinct("nontrivial", r.Trace())
+	})
+}
+
 func blobLast(m *provsim.SourceModel, single bool) string {
 	mode := "prefix"
 	if single {
@@ -637,8 +829,12 @@ func blobTail(l []string, n int) []string {
 var _ = io.EOF
 
 func blobSim(r *simcore.Run) {
-	if r.Src.Draw(5, "two-accounts-scenario") == 4 {
+	switch r.Src.Draw(5, "two-accounts-scenario") {
+	case 4:
 		blobTwoAccountsSim(r)
+		return
+	case 3:
+		blobSlowStoreSim(r)
 		return
 	}
 	blobProvSim(r)
